@@ -238,36 +238,41 @@ def run(ctx, prop):
     # ---- G: histories from the specification
     reg_names = sorted(L.REGRESSION)
     reg = L.annotate(ctx, [L.REGRESSION[n] for n in reg_names], "reg")
-    rnd = L.random_histories(ctx, par, n_rand, "rnd", nproc=6 if quick else 16, timeout=900 if quick else 2400)
-    fam = {"regression": reg, "random": rnd}
-    if prop == "C17" and seam:
-        fam["wrap"] = L.random_histories(ctx, dict(par, ff=[0, 0, 1], len=par["len"]), 60 if quick else 600, "ffr",
-                                         nproc=2 if quick else 8, timeout=900)
-        fam["wrap"] = [h for h in fam["wrap"] if any(o["op"] == "ff" for o in h)]
     # exhaustive extensions (every sequence of 2 operations + solve) of base systems: the regression systems as they are
     # just before they go wrong (first solve), and random ones
     def first_solve(h):
         idx = [i for i, o in enumerate(h) if o["op"] == "solve"]
         return h[:idx[0] + 1] if len(idx) >= 2 else None
     bases = [b for b in (first_solve(h) for n, h in zip(reg_names, reg) if n in ("modset", "zerocap", "suspnorelease", "suspstaged")) if b]
-    if prop == "C18":
-        bases.append(L.annotate(ctx, [L.REGRESSION["suspnorelease"][:5] + [O("solve")]], "b18")[0])
+    bases.append(L.annotate(ctx, [L.REGRESSION["suspnorelease"][:5] + [O("solve")]], "b18")[0])
+    # ---- M (in the background, while the histories are generated)
+    from concurrent.futures import ThreadPoolExecutor
+    pool_m = ThreadPoolExecutor(max_workers=2)
+    tm = time.time()
+    f_mc = pool_m.submit(model_check, ctx, prop, bases, quick)
+    f_vis = pool_m.submit(visited_model, ctx, quick) if prop == "C17" else None
+    rnd = L.random_histories(ctx, par, n_rand, "rnd", nproc=6 if quick else 16, timeout=900 if quick else 2400)
+    fam = {"regression": reg, "random": rnd}
+    if prop == "C17" and seam:
+        fam["wrap"] = L.random_histories(ctx, dict(par, ff=[0, 0, 1], len=par["len"]), 60 if quick else 600, "ffr",
+                                         nproc=2 if quick else 8, timeout=900)
+        fam["wrap"] = [h for h in fam["wrap"] if any(o["op"] == "ff" for o in h)]
     pool = [h for h in rnd if len([o for o in h if o["op"] == "solve"]) >= 2]
     ctx.rng.shuffle(pool)
     nb = 2 if quick else 12
     bases_r = [b for b in (cut_after_solve(h, ctx.rng) for h in pool[:nb]) if b]
-    ext, r_ext = L.extensions(ctx, bases + bases_r, ext_params(prop, par), "ext", timeout=900 if quick else 2400)
+    ext_bases = (bases if prop == "C18" else bases[:-1]) + bases_r
+    ext, r_ext = L.extensions(ctx, ext_bases, ext_params(prop, par), "ext", timeout=900 if quick else 2400)
     fam["extensions"] = ext
     vlib.log("%s: generation %.1fs (%d random, %d extensions)" % (prop, time.time() - t0, len(rnd), len(ext)))
-    t0 = time.time()
-    ctx.cov["exhaustive_extension_bases"] = len(bases + bases_r)
-    # ---- M
-    guided = model_check(ctx, prop, bases[:3] + bases_r[:1], quick)
+    ctx.cov["exhaustive_extension_bases"] = len(ext_bases)
+    guided = f_mc.result()
     if guided:
         fam["guided"] = L.annotate(ctx, guided, "guided")
-    if prop == "C17":
-        model_says_wrap = visited_model(ctx, quick)
-    vlib.log("%s: model checking %.1fs" % (prop, time.time() - t0))
+    if f_vis:
+        model_says_wrap = f_vis.result()
+    pool_m.shutdown()
+    vlib.log("%s: model checking done %.1fs after its start" % (prop, time.time() - tm))
     # ---- T: the real systems, judged by TLC (one batch)
     order = [n for n in ("regression", "guided", "wrap", "random", "extensions") if fam.get(n)]
     hs, origin = [], []
